@@ -1,4 +1,5 @@
 import CelmaVerif.Lemmas.Spelling
+import CelmaVerif.Lemmas.FileLines
 import CelmaVerif.Props.C07
 /-
   C07, second half — arguments from an argument file or the environment variable are evaluated by
@@ -56,6 +57,32 @@ theorem C07_source_values_not_counted (h h' : HState) (i : Nat) (d : ArgDef) (v 
     (he : assignValue h i d v f = .ok h') :
     (h'.args.getD i default).cnt = (h.args.getD i default).cnt :=
   assignValue_fromSrc_cnt hsrc hk hlt he
+
+/-- **The file is its lines, with or without a final newline.**  `readArgumentFile` evaluates the
+    lines `fileLines content` of the file's bytes (the `std::getline` loop).  For a file whose lines
+    are all terminated these are exactly the lines; for a file whose last line is *not* terminated
+    (written by `printf`, by an editor without final newline, or a one-line file) they are too — the
+    arguments of the last line are evaluated like all others. -/
+theorem C07_file_is_its_lines (ls : List Word) (last : Word) (h : ∀ l ∈ ls, '\n' ∉ l)
+    (hl : '\n' ∉ last) (hne : last ≠ []) :
+    fileLines (unlines (ls ++ [last])) = ls ++ [last] ∧ fileLines (unlines ls ++ last) = ls ++ [last] :=
+  ⟨fileLines_terminated _ (by
+      intro l hm
+      rcases List.mem_append.mp hm with m | m
+      · exact h l m
+      · rw [List.mem_singleton.mp m]; exact hl),
+   fileLines_unterminated ls last h hl hne⟩
+
+/-- the pinned loop `while (!std::getline( f, line).eof())` lost the unterminated last line (repaired
+    by the `fix:` commit "the last line of an argument file was ignored …"): witness kept -/
+theorem C07_head_unterminated_last_line_lost (ls : List Word) (last : Word) (h : ∀ l ∈ ls, '\n' ∉ l)
+    (hl : '\n' ∉ last) : fileLinesHead (unlines ls ++ last) = ls :=
+  fileLinesHead_unterminated ls last h hl
+
+example : fileLines "-n 5\n-f".toList = ["-n 5".toList, "-f".toList] ∧
+    fileLines "-n 5\n-f\n".toList = ["-n 5".toList, "-f".toList] ∧
+    fileLinesHead "-n 5\n-f".toList = ["-n 5".toList] ∧
+    fileLines "".toList = [] ∧ fileLines "\n".toList = [[]] := by decide
 
 /-! ### the recorded finding `list-cardinality-from-file` -/
 
